@@ -1,5 +1,8 @@
-(* Hand-written models of the 2-D and node-level ODE right-hand sides of
-   EoN/analytic.py that translate/rhs2v.py does not reach:
+(* Hand-written, proof-friendly models of the 2-D and node-level ODE right-hand
+   sides of EoN/analytic.py (translate/rhs2v.py, the scalar / 1-D translator,
+   does not reach them; translate/rhs2d2v.py translates them to Gen/Rhs2.v and
+   Proofs/Rhs2GenP.v proves, on every run, that the generated definitions are
+   equal to the models below):
 
      _dSIS/_dSIR_individual_based_      (node level, loops over nodes / neighbours)
      _dSIS/_dSIR_pair_based_            (node level, N x N pair arrays, triple closure)
@@ -7,10 +10,12 @@
      _dSIS/_dSIR_effective_degree_      (r x c arrays indexed by (#S nbrs, #I nbrs))
 
    Executable definitions only (proofs: Proofs/Rhs2DP.v).  They are tied to the
-   working tree on every run of C06/C07/C08 by point evaluation (component
-   `rhs2`: Extract/XRhs2.v, ocaml/rhs2_driver.ml, harness/rhs2_lib.py): the
-   extracted definition and the Python function are evaluated at random dyadic
-   points and compared to rel 1e-9.
+   working tree on every run of C06/C07/C08 twice: by the adequacy theorems
+   "generated = model" over the freshly generated Gen/Rhs2.v, and by point
+   evaluation (component `rhs2`: Extract/XRhs2.v, ocaml/rhs2_driver.ml,
+   harness/rhs2_lib.py): the extracted model, the extracted generated
+   definition and the Python function are evaluated at random dyadic points
+   and compared to rel 1e-9.
 
    Conventions.  A flat numpy vector is `vec = list Q`; a 2-D array of shape
    (r, c) stored row-major in a flat vector M has M[i, j] = vnth (i*c + j) M
